@@ -272,6 +272,11 @@ func (c *UDPConn) WriteTo(payload []byte, addr net.Addr) (int, error) { //nolint
 		if err != nil {
 			return 0, err
 		}
+		if msg.Length > math.MaxUint16 {
+			// The header's 16-bit length would wrap: on a stream transport the
+			// server would take the rest of the payload for further messages.
+			return 0, errPayloadTooLarge
+		}
 
 		if _, err = c.client.WriteTo(msg.Raw, c.serverAddr); err != nil {
 			return 0, err
@@ -633,6 +638,10 @@ func (c *UDPConn) handleChannelBindErrorResponse(res *stun.Message) error {
 }
 
 func (c *UDPConn) sendChannelData(data []byte, chNum uint16) (int, error) {
+	if len(data) > math.MaxUint16 {
+		return 0, errPayloadTooLarge
+	}
+
 	chData := &proto.ChannelData{
 		Data:   data,
 		Number: proto.ChannelNumber(chNum),
